@@ -331,6 +331,15 @@ def configs(tier):
                         'pat_groups': None, 'gen': 'sets_k_fold_rdm', 'k_rdm': k, 'random': rnd})
             out.append({'n_rdm': n, 'n_cond': 4, 'rdm_desc': 'index', 'rdm_groups': None, 'pat_desc': 'index',
                         'pat_groups': None, 'cids': None, 'gen': 'sets_k_fold', 'k_rdm': k, 'k_pattern': 1, 'random': rnd})
+    # the default numbers of folds (k = None): 2 below 6 RDM groups / 12 condition groups, 3 from there on
+    for n_rdm, n_cond in ((3, 5), (7, 13)):
+        base = {'n_rdm': n_rdm, 'n_cond': n_cond, 'rdm_desc': 'index', 'rdm_groups': None, 'pat_desc': 'index',
+                'pat_groups': None, 'cids': None}
+        for rnd in (False, True):
+            out.append(dict(base, gen='sets_k_fold', k_rdm=None, k_pattern=None, random=rnd))
+            out.append(dict(base, gen='sets_k_fold_rdm', k_rdm=None, random=rnd))
+            out.append(dict(base, gen='sets_k_fold_pattern', k_pattern=None, random=rnd))
+        out.append(dict(base, gen='sets_random', n_test_rdm=None, n_test_pattern=None, n_cv=2, random=True))
     # both factors
     for n_rdm, n_cond in ([(2, 3), (3, 4)] + ([(4, 4), (4, 5), (5, 6)] if big else [])):
         for rd, rg in _rdm_groupings(n_rdm, tier)[:3]:
